@@ -1,9 +1,11 @@
 package main
 
 import (
+	"bytes"
 	"fmt"
 	"go/ast"
 	"go/constant"
+	"go/printer"
 	"go/token"
 	"go/types"
 	"os"
@@ -601,8 +603,11 @@ func (s *fdSide) note(n fdNote) {
 // For a table decided to be a memo table of a pure function (rules_t8c10_memo.go), what a function
 // computes is what it computes on a miss: `v, ok := T.Load(k)` reads ok = false (v is then unused),
 // and `v, loaded := T.LoadOrStore(k, x)` reads v = x — asserted to x's own type, x.  The two result
-// variables must be defined by that statement and written nowhere else; otherwise the statements are
-// walked as they stand.
+// variables must be defined by that statement and written nowhere else, and the lookup must stand as
+// `if v, ok := T.Load(k); ok { B }` (or the two statements in a row) where B is, statement for statement,
+// what follows the function's only writing call on T, with the value found in place of the value the
+// writing call yields (its first result, or the value stored): on a hit the function goes on exactly as
+// after a miss.  Otherwise the statements are walked as they stand.
 
 func fdMemoCall(e ast.Expr, info *types.Info, memo map[types.Object]bool) (method string, call *ast.CallExpr) {
 	c, ok := fdUnparen(e).(*ast.CallExpr)
@@ -664,39 +669,144 @@ func fdMemoReads(s *fdSide) {
 			}
 			return true
 		})
-		ast.Inspect(fd.Body, func(n ast.Node) bool {
-			a, ok := n.(*ast.AssignStmt)
-			if !ok || len(a.Rhs) != 1 || len(a.Lhs) != 2 {
+		obj := func(e ast.Expr) types.Object {
+			id, ok := e.(*ast.Ident)
+			if !ok || id.Name == "_" {
+				return nil
+			}
+			o := info.Defs[id]
+			if o == nil {
+				o = info.Uses[id]
+			}
+			if written[o] != 1 {
+				return nil
+			}
+			return o
+		}
+		// the writing calls of the function, per table: the statement, the list it stands in, the value offered
+		type put struct {
+			list  []ast.Stmt
+			at    int
+			val   ast.Expr
+			res   types.Object // the first result of LoadOrStore, if named
+			table types.Object
+		}
+		var puts []put
+		type hit struct {
+			okObj types.Object
+			val   types.Object
+			body  []ast.Stmt
+			table types.Object
+		}
+		var hits []hit
+		fdEachList(fd.Body, func(list []ast.Stmt) {
+			for i, st := range list {
+				switch x := st.(type) {
+				case *ast.AssignStmt:
+					if len(x.Rhs) != 1 || len(x.Lhs) != 2 {
+						continue
+					}
+					m, call := fdMemoCall(x.Rhs[0], info, s.memo)
+					switch {
+					case m == "LoadOrStore" && len(call.Args) == 2:
+						puts = append(puts, put{list, i, call.Args[1], obj(x.Lhs[0]), info.Uses[fdUnparen(fdUnparen(call.Fun).(*ast.SelectorExpr).X).(*ast.Ident)]})
+					case m == "Load" && len(call.Args) == 1 && i+1 < len(list):
+						// v, ok := T.Load(k); if ok { … }
+						if ifs, isIf := list[i+1].(*ast.IfStmt); isIf && ifs.Init == nil && ifs.Else == nil {
+							if id, isID := fdUnparen(ifs.Cond).(*ast.Ident); isID && obj(x.Lhs[1]) != nil && info.Uses[id] == obj(x.Lhs[1]) {
+								hits = append(hits, hit{obj(x.Lhs[1]), obj(x.Lhs[0]), ifs.Body.List, info.Uses[fdUnparen(fdUnparen(call.Fun).(*ast.SelectorExpr).X).(*ast.Ident)]})
+							}
+						}
+					}
+				case *ast.ExprStmt:
+					if m, call := fdMemoCall(x.X, info, s.memo); m == "Store" && len(call.Args) == 2 {
+						puts = append(puts, put{list, i, call.Args[1], nil, info.Uses[fdUnparen(fdUnparen(call.Fun).(*ast.SelectorExpr).X).(*ast.Ident)]})
+					}
+				case *ast.IfStmt:
+					// if v, ok := T.Load(k); ok { … }
+					a, isA := x.Init.(*ast.AssignStmt)
+					if !isA || x.Else != nil || len(a.Rhs) != 1 || len(a.Lhs) != 2 {
+						continue
+					}
+					if m, call := fdMemoCall(a.Rhs[0], info, s.memo); m == "Load" && len(call.Args) == 1 {
+						if id, isID := fdUnparen(x.Cond).(*ast.Ident); isID && obj(a.Lhs[1]) != nil && info.Uses[id] == obj(a.Lhs[1]) {
+							hits = append(hits, hit{obj(a.Lhs[1]), obj(a.Lhs[0]), x.Body.List, info.Uses[fdUnparen(fdUnparen(call.Fun).(*ast.SelectorExpr).X).(*ast.Ident)]})
+						}
+					}
+				}
+			}
+		})
+		for _, p := range puts {
+			if p.res != nil {
+				s.memoVals[p.res] = p.val
+			}
+		}
+		// a lookup reads as a miss when what the function does on a hit is what it does after the
+		// (only) writing call on the same table, with the value found in place of the value offered
+		for _, h := range hits {
+			var the *put
+			n := 0
+			for i := range puts {
+				if puts[i].table == h.table {
+					the = &puts[i]
+					n++
+				}
+			}
+			if n != 1 || h.val == nil {
+				continue
+			}
+			missVal := ""
+			switch {
+			case the.res != nil:
+				missVal = the.res.Name()
+			default:
+				if id, ok := fdUnparen(the.val).(*ast.Ident); ok {
+					missVal = id.Name
+				}
+			}
+			if missVal == "" {
+				continue
+			}
+			if fdStmtsText(s, h.body, h.val.Name()) == fdStmtsText(s, the.list[the.at+1:], missVal) {
+				s.falseObjs[h.okObj] = true
+			}
+		}
+	}
+}
+
+var fdEntryAssert = regexp.MustCompile(`⟨entry⟩\.\([^()]*\)`)
+
+// fdStmtsText prints a statement list up to and including its first statement that leaves (what
+// follows it cannot execute), blocks flattened, with the identifier val replaced by a placeholder.
+func fdStmtsText(s *fdSide, list []ast.Stmt, val string) string {
+	var flat []ast.Stmt
+	var add func(l []ast.Stmt) bool
+	add = func(l []ast.Stmt) bool {
+		for _, st := range l {
+			if b, ok := st.(*ast.BlockStmt); ok {
+				if add(b.List) {
+					return true
+				}
+				continue
+			}
+			flat = append(flat, st)
+			if fdTerminates([]ast.Stmt{st}) {
 				return true
 			}
-			m, call := fdMemoCall(a.Rhs[0], info, s.memo)
-			obj := func(e ast.Expr) types.Object {
-				id, ok := e.(*ast.Ident)
-				if !ok || id.Name == "_" {
-					return nil
-				}
-				o := info.Defs[id]
-				if o == nil {
-					o = info.Uses[id]
-				}
-				if written[o] != 1 {
-					return nil
-				}
-				return o
-			}
-			switch {
-			case m == "Load" && len(call.Args) == 1:
-				if o := obj(a.Lhs[1]); o != nil {
-					s.falseObjs[o] = true
-				}
-			case m == "LoadOrStore" && len(call.Args) == 2:
-				if o := obj(a.Lhs[0]); o != nil {
-					s.memoVals[o] = call.Args[1]
-				}
-			}
-			return true
-		})
+		}
+		return false
 	}
+	add(list)
+	var sb strings.Builder
+	re := regexp.MustCompile(`\b` + regexp.QuoteMeta(val) + `\b`)
+	for _, st := range flat {
+		var b bytes.Buffer
+		printer.Fprint(&b, s.pkg.Fset, st)
+		// (the value found is an interface value asserted to the type of the value offered)
+		sb.WriteString(fdEntryAssert.ReplaceAllString(re.ReplaceAllString(b.String(), "⟨entry⟩"), "⟨entry⟩"))
+		sb.WriteString("\n")
+	}
+	return sb.String()
 }
 
 // memoValOf: e is `v.(T)` with v the result of a LoadOrStore on a memo table and T the type of the
